@@ -169,9 +169,9 @@ def map_stream(run, n, bit_ok):
     import mapgen
     rng = run.rng
     res = []
-    for k in range(n):
+    specs = list(mapgen.corpus()) + [mapgen.gen_pair(rng) for _ in range(2 * n)]
+    for k, spec in enumerate(specs):
         sub = "m%03d" % k
-        spec = mapgen.gen_pair(rng)
         files = mapgen.render_go(spec, "c01mod", sub)
         own = {p.split("/")[-1]: t for p, t in files.items() if p.startswith(sub + "/src/")}
         extra = {p: t for p, t in files.items() if not p.startswith(sub + "/src/")}
